@@ -51,7 +51,15 @@ fn gen_case(seed: u64, ci: usize) -> (Dag, Vec<Vec<f32>>) {
     let cfg = DagCfg { max_ops: *r.pick(&[4, 12, 30, 60]), max_outputs: 1, max_free_vars: *r.pick(&[0, 0, 2, 5]),
         p_recent: *r.pick(&[0.1, 0.4, 0.8]), p_const_operand: *r.pick(&[0.1, 0.3]), p_special_const: *r.pick(&[0.05, 0.3]),
         choice_heavy: false, no_hash: false, const_roots: false, choice_chain: 0 };
-    let dag = gen_dag(r, &cfg);
+    let mut dag = gen_dag(r, &cfg);
+    // one case in six: 30..100 further variables, all of them read (the variable array is addressed with displacements
+    // that no longer fit one signed byte from the 33rd input on)
+    if r.chance(0.17) {
+        let extra = r.range(30, 100);
+        let mut acc = *dag.roots.last().unwrap();
+        for _ in 0..extra { let v = fidget_core::var::Var::new(); dag.vs.push(v); let n = dag.ctx.var(v); let c = gen_tame(r); let m = dag.ctx.mul(n, c).unwrap(); acc = dag.ctx.add(acc, m).unwrap(); }
+        dag.roots = vec![acc];
+    }
     let roots = all_nodes(&dag, 40);
     let nvars = 3 + dag.vs.len();
     let npts = 40;
